@@ -57,7 +57,7 @@ var schedBound = time.Duration(envInt("VERIF_SCHED_BOUND_MS", 10000)) * time.Mil
 // runSchedule executes the schedule and the completion phases; see DESIGN 2.5.
 func runSchedule(carrier, kind string, steps []Step, postOps bool, copt ...carrierOpts) *schedResult {
 	res := &schedResult{}
-	r := &rpcRun{kind: kind, carrier: carrier, actors: map[string]*actor{"cs": newActor("cs"), "cs2": newActor("cs2"), "cr": newActor("cr"), "h": newActor("h"), "h2": newActor("h2")}, hDone: make(chan struct{})}
+	r := &rpcRun{kind: kind, carrier: carrier, actors: map[string]*actor{"cs": newActor("cs"), "cs2": newActor("cs2"), "cr": newActor("cr"), "cr2": newActor("cr2"), "h": newActor("h"), "h2": newActor("h2")}, hDone: make(chan struct{})}
 	hasReturn := false
 	for _, st := range steps {
 		if a := r.actors[st.Actor]; a != nil {
@@ -99,6 +99,7 @@ func runSchedule(carrier, kind string, steps []Step, postOps bool, copt ...carri
 	go r.actors["cs"].loop(r)
 	go r.actors["cs2"].loop(r)
 	go r.actors["cr"].loop(r)
+	go r.actors["cr2"].loop(r)
 	for _, st := range steps {
 		if st.Actor == "x" {
 			r.mu.Lock()
@@ -174,6 +175,7 @@ func runSchedule(carrier, kind string, steps []Step, postOps bool, copt ...carri
 			res.StallA = fmt.Sprintf("the handler has returned, yet the client's sends (nobody receiving, no CloseSend since) are still blocked after %v\n%s", schedBound, goroutineDump())
 		}
 		r.actors["cr"].releaseAll(drain...)
+		r.actors["cr2"].releaseAll()
 		r.mu.Lock()
 		closedAlready := r.clientClosed
 		r.mu.Unlock()
@@ -185,13 +187,13 @@ func runSchedule(carrier, kind string, steps []Step, postOps bool, copt ...carri
 			// HTTP/1.1 is half-duplex (httpgrpc/doc.go): net/http withholds the reply until the
 			// request body has ended. Give the operations a moment; if they are still pending,
 			// end the request and note that this was needed (open known finding).
-			if !waitActorsIdle(60*time.Millisecond, r.actors["cs"], r.actors["cs2"], r.actors["cr"]) {
+			if !waitActorsIdle(60*time.Millisecond, r.actors["cs"], r.actors["cs2"], r.actors["cr"], r.actors["cr2"]) {
 				res.NeededClose = true
 				r.actors["cs"].releaseAll(Step{Actor: "cs", Op: "close"})
 			}
 		}
-		stopWhenDone(r.actors["cs"], r.actors["cs2"], r.actors["cr"])
-		if !waitActors(schedBound, r.actors["cs"], r.actors["cs2"], r.actors["cr"]) {
+		stopWhenDone(r.actors["cs"], r.actors["cs2"], r.actors["cr"], r.actors["cr2"])
+		if !waitActors(schedBound, r.actors["cs"], r.actors["cs2"], r.actors["cr"], r.actors["cr2"]) {
 			res.StallA = fmt.Sprintf("the handler has returned (client closed its send side: %v), yet client operations are still blocked after %v\n%s", closedAlready || res.NeededClose, schedBound, goroutineDump())
 		}
 	} else {
@@ -199,8 +201,9 @@ func runSchedule(carrier, kind string, steps []Step, postOps bool, copt ...carri
 		r.actors["cs"].releaseAll(Step{Actor: "cs", Op: "close"})
 		r.actors["cs2"].releaseAll()
 		r.actors["cr"].releaseAll(drain...)
-		stopWhenDone(r.actors["cs"], r.actors["cs2"], r.actors["cr"])
-		clientDone := waitActors(schedBound, r.actors["cs"], r.actors["cs2"], r.actors["cr"])
+		r.actors["cr2"].releaseAll()
+		stopWhenDone(r.actors["cs"], r.actors["cs2"], r.actors["cr"], r.actors["cr2"])
+		clientDone := waitActors(schedBound, r.actors["cs"], r.actors["cs2"], r.actors["cr"], r.actors["cr2"])
 		hd := true
 		r.mu.Lock()
 		started = r.handlerStarted
@@ -221,7 +224,7 @@ func runSchedule(carrier, kind string, steps []Step, postOps bool, copt ...carri
 	r.cancelled = true
 	r.mu.Unlock()
 	r.cancel()
-	if !waitActors(schedBound, r.actors["cs"], r.actors["cs2"], r.actors["cr"]) {
+	if !waitActors(schedBound, r.actors["cs"], r.actors["cs2"], r.actors["cr"], r.actors["cr2"]) {
 		res.StallB = "client operations still blocked " + schedBound.String() + " after the context was cancelled\n" + goroutineDump()
 	}
 	if started {
@@ -340,7 +343,7 @@ func propC05(c c05Case) *Outcome {
 	o.Observed = obs
 	// non-trivial: the handler returned while a client op was pending or still to come, or ops after completion, or close racing send
 	for _, e := range res.Events {
-		if (e.Step.Actor == "cs" || e.Step.Actor == "cs2" || e.Step.Actor == "cr") && e.HandlerReturned && e.Seq <= len(c.Steps) {
+		if (e.Step.Actor == "cs" || e.Step.Actor == "cs2" || e.Step.Actor == "cr" || e.Step.Actor == "cr2") && e.HandlerReturned && e.Seq <= len(c.Steps) {
 			o.NonTrivial = true
 		}
 		if e.Parked {
@@ -410,6 +413,9 @@ func propC05(c c05Case) *Outcome {
 		evKey := e.Step.Actor + "/" + e.Step.Op
 		if e.Step.Actor == "cs2" {
 			evKey = "cs/" + e.Step.Op
+		}
+		if e.Step.Actor == "cr2" {
+			evKey = "cr/" + e.Step.Op
 		}
 		badHdr := (c.BadReplyHeader || c.Reject != 0) && isHTTP(c.Carrier)
 		switch evKey {
@@ -560,6 +566,7 @@ func genStepsFor(t *rapid.T, kind string, allowCancel bool, maxSteps int, second
 		if clientStreaming(kind) {
 			actorPool = append(actorPool, "cs2")
 		}
+		actorPool = append(actorPool, "cr2")
 		a := rapid.SampledFrom(actorPool).Draw(t, "actor")
 		st := Step{Actor: a}
 		switch a {
@@ -571,6 +578,9 @@ func genStepsFor(t *rapid.T, kind string, allowCancel bool, maxSteps int, second
 		case "cs2":
 			// a second client goroutine: CloseSend racing whatever the sender is doing
 			st.Op = "close"
+		case "cr2":
+			// a second receiving goroutine: Header() concurrently with the receiver's RecvMsg
+			st.Op = "header"
 		case "cs":
 			st.Op = rapid.SampledFrom([]string{"send", "send", "send", "close"}).Draw(t, "csop")
 			if !clientStreaming(kind) {
@@ -603,7 +613,7 @@ func genStepsFor(t *rapid.T, kind string, allowCancel bool, maxSteps int, second
 }
 
 func genC05(t *rapid.T) c05Case {
-	c := c05Case{Carrier: rapid.SampledFrom([]string{cInproc, cInproc, cHTTP, cHTTPMux}).Draw(t, "carrier"), Kind: rapid.SampledFrom([]string{kClientStream, kServerStream, kBidi, kBidi}).Draw(t, "kind")}
+	c := c05Case{Carrier: rapid.SampledFrom([]string{cInproc, cInproc, cInproc, cHTTP, cHTTPMux, cHTTPPer}).Draw(t, "carrier"), Kind: rapid.SampledFrom([]string{kClientStream, kServerStream, kBidi, kBidi}).Draw(t, "kind")}
 	c.Steps = genStepsFor(t, c.Kind, true, 14, c.Carrier == cInproc && rapid.Bool().Draw(t, "h2"))
 	c.BadReplyHeader = isHTTP(c.Carrier) && rapid.IntRange(0, 9).Draw(t, "badhdr") == 0
 	if isHTTP(c.Carrier) && !c.BadReplyHeader && rapid.IntRange(0, 19).Draw(t, "reject") == 0 {
@@ -616,6 +626,7 @@ func init() { registerReplay("C05", propC05) }
 
 const c05Rule = "rapid-generated schedules of <=14 steps over three actors (client sender: SendMsg small/medium, CloseSend also repeated; client receiver: RecvMsg, Header, Trailer; handler: RecvMsg, SendMsg, SetHeader, SendHeader, SetTrailer, return ok/err) plus cancellation, on the in-process channel, httpgrpc.Server and HandleServices for client-, server- and bidi-streaming; each step is released when the previous one has returned or parked (goroutine state from runtime.Stack); " +
 	"then phase A (client closes and drains, handler returns), phase B (context cancelled), operations after completion, goroutine census; invariants: no panic; everything finishes in phase A (10 s, stable park = deadlock) and certainly in phase B; later operations return; without cancellation sends return nil or io.EOF (EOF only once the handler returned), receives are an intact prefix of what the handler sent followed by the handler's status, stable across repeated calls; no library goroutine survives; " +
+	"also generated since the seeded rounds: a second client goroutine calling CloseSend, a second handler goroutine (in-process) incl. SendHeader after the handler returned, sends above 256 KiB, undecodable reply headers and HTTP-level rejection (401/403/404/415/502/503 from a middleware: only termination, panics and leaks judged), senders-only drain stage; " +
 	"non-trivial = a scheduled client operation was pending or issued after the handler returned; distinct by case hash"
 
 func TestC05(t *testing.T) {
